@@ -1,4 +1,4 @@
-(* Observation vectors for the std.bytes part of the C09 tie: per step [code; value]. *)
+(* Observation vectors for the std.bytes part of the C09 tie: per step [code; value; bytes_allocated() after the step]. *)
 From Coq Require Import NArith ZArith Bool List.
 From Aelys Require Import Extracted.ManualMem Model.ManualHeap Model.Bytes.
 Import ListNotations.
@@ -19,7 +19,7 @@ Definition bres_obs (r : bres) : list Z :=
 Fixpoint b_obs (s : bstate) (os : list bop) : list Z :=
   match os with
   | [] => []
-  | o :: r => let '(s1, x) := b_step s o in bres_obs x ++ b_obs s1 r
+  | o :: r => let '(s1, x) := b_step s o in bres_obs x ++ Z.of_N (btotal s1) :: b_obs s1 r   (* result, then bytes_allocated() *)
   end.
 
 Definition bobs (q : bq) : list Z := match q with QBytes os => b_obs bs_empty os end.
